@@ -13,6 +13,7 @@ package token
 //@   loop 0: invariant longest >= 0 && longest <= maxkeylen(directives)
 //@   loop 0: invariant allkeys(directives, d, visited(d) ==> len(d) <= longest)
 //@   loop 0: invariant longest == 0 || anykey(directives, d, len(d) == longest)
+//@   loop 0: deterministic-by-contract
 
 // Contains is the lexicographic range test on (line, column).
 //@ spec lexLE(l1 uint, c1 uint, l2 uint, c2 uint) bool = l1 < l2 || (l1 == l2 && c1 <= c2)
